@@ -83,7 +83,7 @@ func c12units(tier string) []mc.Unit {
 		name, alpha string
 		q, t        int
 	}
-	for _, a := range []ab{{"AB", "AB", 14, 20}, {"ABC", "ABC", 9, 13}, {"ACGT", "ACGT", 7, 11}, {"bytes", "\x00\x7f\x80\xff", 5, 7}} {
+	for _, a := range []ab{{"AB", "AB", 14, 20}, {"ABC", "ABC", 9, 13}, {"ACGT", "ACGT", 7, 11}, {"bytes", "\x00\x7f\x80\xff", 5, 7}, {"ATU", "ATU", 9, 12}, {"acgtACGT", "aAcCgGtT", 5, 6}} {
 		a := a
 		maxn := tier2(tier, a.q, a.t)
 		for n := 0; n <= maxn; n++ {
@@ -290,9 +290,9 @@ func c12units(tier string) []mc.Unit {
 					if p := catch(func() { c0 = seqhash.RotateSequence(sh.s) }); p != "" || len(c0) != n {
 						continue // reported by c12check above
 					}
-					for _, k := range offs {
+					for _, k := range append([]int{0}, offs...) {
 						for _, kk := range []int{k, n - k} {
-							if kk <= 0 || kk >= n {
+							if kk < 0 || kk >= n || (k == 0 && kk != 0) {
 								continue
 							}
 							// the canonical form itself, stored starting kk letters later
@@ -317,6 +317,39 @@ func c12units(tier string) []mc.Unit {
 			r.Bound("sweep", fmt.Sprintf("%d lengths (every length to %d, then +7%% steps to %d) x about 20 shapes x rotations by small offsets from either end", len(lens), tier2(tier, 300, 600), lens[len(lens)-1]))
 		}})
 	}
+	// words over multi-byte UTF-8 letters (the rotation is defined on the bytes): every word of up to 5 letters over
+	// four two- and three-byte letters and one ASCII letter
+	us = append(us, mc.Unit{Name: "multibyte-letters", Weight: 20, Run: func(r *mc.Recorder) {
+		toks := []string{"\u00e9", "\u00a9", "\u00c2", "\u20ac", "A"}
+		cnt := int64(0)
+		for n := 1; n <= 5; n++ {
+			enumStrings("01234", n, func(b []byte) {
+				var sb strings.Builder
+				for _, x := range b {
+					sb.WriteString(toks[x-'0'])
+				}
+				s := sb.String()
+				c12check(r, s, true)
+				cnt++
+				var c0 string
+				if p := catch(func() { c0 = seqhash.RotateSequence(s) }); p != "" || len(c0) != len(s) {
+					return
+				}
+				for k := 1; k < len(s); k++ {
+					var c string
+					if p := catch(func() { c = seqhash.RotateSequence(s[k:] + s[:k]) }); p == "" && c != c0 {
+						r.Failf("orbit", q(s)+" rot "+fmt.Sprint(k), nil, q(c0), q(c))
+					}
+					cnt++
+				}
+			})
+		}
+		r.Eval(cnt)
+		r.AddStates(cnt)
+		r.AddTransitions(cnt)
+		r.AddNontrivial(cnt)
+		r.Bound("multibyte-letters", "every word of 1..5 letters over {U+00E9, U+00A9, U+00C2, U+20AC, A}, every byte rotation")
+	}})
 	// every byte value at the start, in the middle and at the end of a word
 	us = append(us, mc.Unit{Name: "every-byte", Weight: 10, Run: func(r *mc.Recorder) {
 		cnt := int64(0)
